@@ -92,7 +92,7 @@ func flattenString(t *ir.Term) []string {
 }
 
 func c17(c *Ctx) {
-	c.R.Explanation = "C17 decided on the SSA of /repo. R-paths = the values stored into HwMonFanConfig.{RpmInputPath,PwmPath,PwmEnablePath} normalise (through path.Join / fmt.Sprintf / Itoa / +) to SysfsPath/fan<RpmChannel>_input, SysfsPath/pwm<PwmChannel>, SysfsPath/pwm<PwmChannel>_enable of the same config object, and every I/O call of every HwMonFan method uses exactly the designated path field (GetRpm: RpmInputPath; GetPwm/SetPwm: PwmPath; Get/SetPwmEnabled: PwmEnablePath). R-match = in the fan binding function a candidate device is accepted (its sysfs path copied into the entry) only on paths that crossed: platform regexp matched, (entry.Index <= 0 or candidate.Index == entry.Index) and (entry.RpmChannel <= 0 or candidate.RpmChannel == entry.RpmChannel); the copied values come from that candidate. R-default = the entry's PwmChannel is overwritten only under PwmChannel == 0 and with the candidate's channel; the paths are (re)computed after the acceptance on every path to the nil return. R-fail = every return that avoids the acceptance carries a non-nil error. R-bind-sensor = in start-up sensor binding, a hwmon sensor object is created only on paths (tracked through the boolean 'found' flag) on which TempInput was stored, that store being dominated by platform-matched and by the comma-ok of the index lookup; otherwise an error is returned. R-position = the discovery function keys the per-chip sensor map, and fills HwmonSensor.Index, with a counter incremented once per accepted temperature input (position), not with a number taken from the device name. R-nocrash = no map-lookup dereference with ignored ok, non-comma-ok type assertion or panic in the binding code. Not decided: regexp semantics; enumeration-order independence beyond 'first match among chips matching the pattern'."
+	c.R.Explanation = "C17 decided on the SSA of /repo. R-paths = the values stored into HwMonFanConfig.{RpmInputPath,PwmPath,PwmEnablePath} normalise (through path.Join / fmt.Sprintf / Itoa / +) to SysfsPath/fan<RpmChannel>_input, SysfsPath/pwm<PwmChannel>, SysfsPath/pwm<PwmChannel>_enable of the same config object, and every I/O call of every HwMonFan method uses exactly the designated path field (GetRpm: RpmInputPath; GetPwm/SetPwm: PwmPath; Get/SetPwmEnabled: PwmEnablePath). R-match = in the fan binding function a candidate device is accepted (its sysfs path copied into the entry) only on paths that crossed: platform regexp matched, (entry.Index <= 0 or candidate.Index == entry.Index) and (entry.RpmChannel <= 0 or candidate.RpmChannel == entry.RpmChannel); the copied values come from that candidate. R-default = the entry's PwmChannel is overwritten only under PwmChannel == 0 and with the candidate's channel; the paths are (re)computed after the acceptance on every path to the nil return. R-fail = every return that avoids the acceptance carries a non-nil error. R-bind-sensor = in start-up sensor binding, a hwmon sensor object is created only on paths (tracked through the boolean 'found' flag) on which TempInput was stored, that store being dominated by platform-matched and by the comma-ok of the index lookup; otherwise an error is returned. R-position = the discovery function keys the per-chip sensor map, and fills HwmonSensor.Index, with a counter incremented once per accepted temperature input (position), not with a number taken from the device name. R-nocrash = no map-lookup dereference with ignored ok, non-comma-ok type assertion or panic in the binding code. R-holes = a list of pointers created with make([]*T, n), n != 0, in the discovery/binding packages stores its slot in every iteration of the filling loop (the binders dereference every element without a nil test). Not decided: regexp semantics; enumeration-order independence beyond 'first match among chips matching the pattern'."
 	tb := ir.NewTB(c.P.IsRepoFunc, c.P.FuncKey)
 
 	// ---- R-paths: construction ------------------------------------------------------
@@ -673,6 +673,82 @@ func c17(c *Ctx) {
 		})
 	}
 	c.R.Ok("R-nocrash", "summary", "binding code", "-", sprintf("%d functions of the start-up binding code inspected for unchecked map-lookup dereference / assertion / panic", len(scope)))
+	c.ruleHoles("R-holes")
+}
+
+// ruleHoles: the device lists handed to the binding code contain no nil element. The binders dereference every
+// element (chip.Platform, chip.Fans, ...) without a nil test, so a list of pointers must be built by appending
+// non-nil elements; a list pre-sized with make([]*T, n), n != 0, is accepted only when every iteration of the
+// filling loop stores its slot (no continue / early back edge before the store).
+func (c *Ctx) ruleHoles(rule string) {
+	n := 0
+	for _, fn := range c.P.Funcs {
+		if p := load_FuncPkgPath(fn); p != PkgHwmon && p != PkgInternal {
+			continue
+		}
+		Instrs(fn, func(ins ssa.Instruction) {
+			ms, ok := ins.(*ssa.MakeSlice)
+			if !ok {
+				return
+			}
+			sl, ok := ms.Type().Underlying().(*types.Slice)
+			if !ok {
+				return
+			}
+			if _, isPtr := sl.Elem().Underlying().(*types.Pointer); !isPtr {
+				return
+			}
+			n++
+			key := c.FK(fn) + "|make " + types.TypeString(ms.Type(), func(p *types.Package) string { return p.Name() })
+			if k, isConst := ir.ConstInt(ms.Len); isConst && k == 0 {
+				c.R.Ok(rule, key, c.FK(fn), c.P.Pos(ms.Pos()), "created empty: elements exist only where appended")
+				return
+			}
+			// stores into slots of this slice
+			isSlotStore := func(x ssa.Instruction) bool {
+				st, ok := x.(*ssa.Store)
+				if !ok {
+					return false
+				}
+				ia, ok := st.Addr.(*ssa.IndexAddr)
+				return ok && ir.Resolve(ia.X) == ssa.Value(ms)
+			}
+			var stores []ssa.Instruction
+			Instrs(fn, func(x ssa.Instruction) {
+				if isSlotStore(x) {
+					stores = append(stores, x)
+				}
+			})
+			if len(stores) == 0 {
+				c.R.Bad(rule, key, c.FK(fn), c.P.Pos(ms.Pos()), "a list of pointers is created with a non-zero length and no slot is ever stored: it holds nil elements, which the binding code dereferences")
+				return
+			}
+			bad := ""
+			for _, st := range stores {
+				h := loopHead(st.Block())
+				if h == nil {
+					continue
+				}
+				// back-edge sources of this loop
+				for _, pred := range h.Preds {
+					if !h.Dominates(pred) {
+						continue
+					}
+					ir.Search{StopInstr: isSlotStore}.Reach([]ir.Point{{Block: h, Idx: 0}}, func(x ssa.Instruction, _ *ssa.BasicBlock) {
+						if x.Block() == pred && x == pred.Instrs[len(pred.Instrs)-1] && bad == "" {
+							bad = "an iteration of the loop at " + c.P.Pos(st.Pos()) + " can reach the next iteration without storing its slot"
+						}
+					})
+				}
+			}
+			if bad != "" {
+				c.R.Bad(rule, key, c.FK(fn), c.P.Pos(ms.Pos()), "a list of pointers is pre-sized with make(len) and filled by index, but "+bad+": the skipped slot stays nil and the binding code dereferences every element (start-up crash that depends on which other chips are enumerated)")
+			} else {
+				c.R.Ok(rule, key, c.FK(fn), c.P.Pos(ms.Pos()), "pre-sized list: every iteration of the filling loop stores its slot")
+			}
+		})
+	}
+	c.R.Ok(rule, "summary", PkgHwmon, "-", sprintf("%d make([]*T, n) sites in the discovery / binding packages", n))
 }
 
 // platformMatch recognises "the chip's platform matched the entry's pattern":
